@@ -78,6 +78,7 @@ type Object struct {
 	Entry      bool // existed at function entry (parameter-reachable)
 	Global     bool
 	Escaped    bool
+	Wild       bool       // stand-in for the unknown target of a loop-carried pointer: reads are arbitrary, writes are reported
 	Unmodelled bool       // slice of aggregates whose contents are not modelled: loads give fresh values
 	ElemType   types.Type // element type of an unmodelled slice
 	Root       string
